@@ -343,3 +343,34 @@ Definition check_legacy (k : lcase) : bool :=
   ptree_close (legacy1 castQ F f (l_tree k)) (l_legacy k)
   && ptree_close (if is_node (l_tree k) then legacy1_spec castQ F f (l_tree k)
                   else legacy1 castQ F f (l_tree k)) (l_npcall k).
+
+(* ---------------- power-space elements through the NumPy API ---------------- *)
+(* kind: 0 ndarray, 1 power-space element, 3 scalar *)
+Record pw := mkPW { pw_kind : nat; pw_dt : dt; pw_shape : list nat; pw_data : list Q }.
+Inductive pobs := PErr (e : errk) | POk (l : list pw).
+Record pcase := mkPCase {
+  p_uf : ufid; p_rdt : list dt; p_oracle : res (list narrQ);
+  p_n : nat; p_s : list nat; p_d : dt; p_x : list Q;      (* the element: n parts of shape s *)
+  p_meth : meth; p_kw : kwargs;
+  p_other : list (@rawin Q);                               (* further operands (arrays / scalars) *)
+  p_self_second : bool;                                    (* the element is the SECOND operand *)
+  p_out_elem : bool;                                       (* out= is a power-space element *)
+  p_out_arr : bool;                                        (* out= is an ndarray of the result dtype *)
+  p_obs : pobs }.
+Definition wrapped_ok (w : @wrapped Q) (o : pw) : bool :=
+  match w with
+  | WScal v => (pw_kind o =? 3)%nat && Qsclose tol tol (pw_data o) [v]
+  | WArrRes r => (pw_kind o =? 0)%nat && dt_eqb (a_dt r) (pw_dt o) && shape_eqb (a_shape r) (pw_shape o)
+                 && Qsclose tol tol (pw_data o) (a_data r)
+  | WElem d sh x => (pw_kind o =? 1)%nat && dt_eqb d (pw_dt o) && shape_eqb sh (pw_shape o)
+                    && Qsclose tol tol (pw_data o) x
+  end.
+Definition check_pspace (k : pcase) : bool :=
+  let xarr := RIArr (mkArr (p_d k) (p_n k :: p_s k) (p_x k)) in
+  let ins := if p_self_second k then p_other k ++ [xarr] else xarr :: p_other k in
+  let r := np_conc (p_uf k) (p_rdt k) (p_oracle k) (mkReq (p_meth k) (p_kw k) ins []) in
+  match pspace_np castQ (p_meth k) (p_out_elem k) (p_out_arr k) (p_n k) (p_s k) (p_d k) r, p_obs k with
+  | Err e, PErr e' => errk_eqb e e'
+  | Ok ws, POk os => all2 wrapped_ok ws os
+  | _, _ => false
+  end.
